@@ -11,18 +11,34 @@ from ..report import Ctx
 from .depthrules import polarity_rule
 
 LEVEL_TEXT = (
-    "The four claims are about the result of a fixpoint on arbitrary class hierarchies (values).  Decided are three "
-    "structural parts: (R1) leaf coverage of every walker over field types (register_type, collect_types, explode_generics, "
-    "usable_grammar, strip_annotations - found by name anywhere in the grammar package): each is interpreted (sa/modelinterp: "
-    "the repository's own type-form predicates inlined over a model of what the typing runtime exposes, recursive calls "
-    "followed, worklists and generators modelled) on nine nested wrapper types built from list / Annotated / Union / tuple "
-    "over two classes and must reach exactly the classes inside, never stopping at or failing on a wrapper; "
-    "get_distance_to_terminal is interpreted on nested wrappers with symbolic table entries and must charge every level; "
-    "field types reach the reachability propagation unfiltered; (R2) AND/OR polarity of the distance equations: union and "
-    "abstract symbols aggregate with min, tuples and concrete productions with max, and the fixpoint only decreases "
-    "values; (R3) the places that enumerate base types agree: every base type a creator produces without consuming a "
-    "level has distance 0 in the default mode. Exact minimum depths, the exact recursive set and language equality of the "
-    "usable sub-grammar are not claimed."
+    "The four claims are about the result of a fixpoint on arbitrary class hierarchies (values).  Decided are "
+    "structural parts for all grammars (R1-R5) and the tables themselves on a family of model grammars (R6): (R1)"
+    " leaf coverage of every walker over field types (register_type, collect_types, usable_grammar, "
+    "strip_annotations - found by name anywhere in the grammar package): each is interpreted (sa/modelinterp: the"
+    " repository's own type-form predicates inlined over a model of what the typing runtime exposes, recursive "
+    "calls followed, worklists and generators modelled) on nine nested wrapper types built from list / Annotated "
+    "/ Union / tuple over two classes and must reach exactly the classes inside, never stopping at or failing on "
+    "a wrapper; get_distance_to_terminal is interpreted on nested wrappers with symbolic table entries and must "
+    "charge every level; usable_grammar also on an abstract symbol that is itself a dataclass; the reachability "
+    "relation is checked end to end - on nine model grammars whose only cycle passes through one nested wrapper "
+    "type the interpreted preprocess must report the cycle, whatever closures, helpers or helper classes it is "
+    "made of; (R2) AND/OR polarity of the distance equations: union and abstract symbols aggregate with min, "
+    "tuples and concrete productions with max, and the fixpoint only decreases values; (R3) the places that "
+    "enumerate base types agree: every base type a creator produces without consuming a level has distance 0 in "
+    "the default mode; (R4) a grammar that redoes its analysis in place (update_weights -> self.__init__) keeps "
+    "its start symbol, supplied classes and depth-counting mode (interpreted on a symbolic configuration); (R5) "
+    "update_weights completes on a grammar one of whose supplied classes the start symbol does not reach "
+    "(interpreted with strict dict lookups); (R6) sa/rules/grammodel.py: Grammar.__init__, register_type(start), "
+    "preprocess() and usable_grammar() are interpreted end to end on model grammars (class hierarchies written as"
+    " data; only reflection - is_abstract, get_arguments, mro, issubclass - is replaced by the data) and the "
+    "tables they end with are compared with a reference computed independently from the specification: "
+    "productions = direct subtypes among the supplied classes, minimum depth = least fixpoint of the depth "
+    "equations in the library's convention, recursive = self-reachable in the derivation graph, usable = "
+    "reachable from the start symbol; both depth modes; quick tier 8 grammars, thorough tier 160 more from a "
+    "reproducible generator (1-3 abstract types, 2-5 productions, int / symbol / list / Annotated / nested / "
+    "Union fields, unreachable classes, shuffled supply order). The family avoids tuple fields, unions of unequal"
+    " depth and bool fields (known findings R1-R3). Beyond the family the exact tables are not claimed; language "
+    "equality of the usable sub-grammar is not claimed (only its symbol set)."
 )
 
 GRAMMAR_MOD = "geneticengine.grammar.grammar"
